@@ -15,7 +15,8 @@ Fragments (`ViralPropagation/sql.py` executed directly in DuckDB on the other si
 Scripts: `(vprog (<name> <rule>)…) (<datasets>) ((<result name> <vexpr>)…))` — statements evaluated in order,
 every result added to the environment; the answer is the LAST statement's dataset (or the first error).
 `<vexpr>` = the clause / set-operator forms of `Sem/Codec` over `<vexpr>` operands, plus
-`(vmapm <vexpr> <sexpr> <out>)`, `(vzip <vexpr> <vexpr> <sexpr> <out>)`, `(vaggr <aggregation spec> <vexpr>)`.
+`(vmapm <vexpr> <sexpr> <out>)`, `(vzip <vexpr> <vexpr> <sexpr> <out>)`, `(vaggr <aggregation spec> <vexpr>)`,
+`(vpart <vexpr> (<partition identifier>…))` (analytic invocation: identifiers + viral attributes only).
 Convention owned HERE: `keep` keeps the viral attributes although the script does not name them
 (`(keep d ns)` decodes to `.keep d (ns ++ viral names)`); datasets list their viral attributes among `meas`.
 
@@ -61,6 +62,7 @@ def decV (s : VSpec) : Nat → Sexp → Option DExpr
       pure (.app2 (vZip s (← decS (depth body + 1) body) (← decOut out)) (← decV s k a) (← decV s k b))
   | k+1, .list [.atom "vaggr", sp, d] => do
       pure (.app1 (vAggr s (← decSpec sp)) (← decV s k d))
+  | k+1, .list [.atom "vpart", d, ps] => do pure (.app1 (vPartition s (← decNames ps)) (← decV s k d))
   | k+1, .list [.atom "filter", d, c] => do pure (.filter (← decV s k d) (← decS (depth c + 1) c))
   | k+1, .list [.atom "calc", d, .list items] => do
       let its ← items.mapM (fun it => match it with
